@@ -6,6 +6,7 @@ literals) and executed symbolically, and compared by z3 with the term an
 independent Fortran-semantics reader produces for the *input* text."""
 from __future__ import annotations
 
+from ..paths import child_env
 import json
 import os
 import random
@@ -247,7 +248,8 @@ def gen_exprs(n, seed, depth=3):
 
 
 def bundled_exprs(thorough):
-    files = ["/repo/naunet/examples/primordial/primordial.krome", "/repo/tests/data/minimal.krome"] + (["/repo/naunet/examples/deuterium/deuterium.krome"] if thorough else [])
+    from ..paths import REPO
+    files = [REPO + "/naunet/examples/primordial/primordial.krome", REPO + "/tests/data/minimal.krome"] + ([REPO + "/naunet/examples/deuterium/deuterium.krome"] if thorough else [])
     out = []
     for f in files:
         for l in open(f):
@@ -287,7 +289,7 @@ def translate(exprs, work):
     inp, outp = os.path.join(work, "exprs.json"), os.path.join(work, "c.json")
     json.dump(exprs, open(inp, "w"))
     env = dict(os.environ, TQDM_DISABLE="1", PYTHONHASHSEED="0")
-    env.pop("PYTHONPATH", None)
+    child_env(env)
     r = subprocess.run([proj.PY, "-c", TRANSLATE, inp, outp], capture_output=True, text=True, env=env, cwd=work, timeout=900)
     if not os.path.exists(outp):
         raise Inconclusive("translator worker failed: " + (r.stderr or r.stdout)[-400:])
@@ -445,6 +447,11 @@ def shape_key(fe, ce=""):
     """findings are keyed by the syntactic feature that is mistranslated"""
     c = ce.replace(" ", "")
     if re.search(r"pow\([A-Za-z_][\w.+-]*[+-]\d", c):
+        return "lexer:signed-number-glued-to-preceding-variable"
+    # same lexer feature on the exponent side: 'a**v+1d-9' -> pow(a, v+1e-9)
+    f = fe.replace(" ", "")
+    if re.search(r",[A-Za-z_]\w*[+-]\d[\w.+-]*\)", c) and \
+            re.search(r"\*\*[A-Za-z_]\w*[+-][\d.]", f):
         return "lexer:signed-number-glued-to-preceding-variable"
     if re.search(r"pow\(-[\d.]", c):
         return "lexer:signed-literal-as-power-base"
